@@ -1,4 +1,4 @@
-import Nv.Model.C15
+import Nv.Proofs.C15Group
 /-!
 C15 — property theorems for the mux worker group (model: `Nv.Model.C15`).
 -/
@@ -46,5 +46,331 @@ theorem not_lochash_in_range_absFirst : ¬ LocOk locAbsFirst := by
   have := (h 3#64 (BitVec.intMin 64) (by decide)).1
   rw [witness_locAbsFirst_minInt] at this
   omega
+
+
+theorem toInt_ofNat_small (n : Nat) (h : n < 2^63) : (BitVec.ofNat 64 n).toInt = (n : Int) := by
+  have h1 : (BitVec.ofNat 64 n).toNat = n := by simp [BitVec.toNat_ofNat]; omega
+  rw [BitVec.toInt_eq_toNat_of_lt (by omega), h1]
+
+/-- `mux_same_key_same_worker`: the worker of an operation is a function of its key alone, and — for an
+in-range kernel — it exists (no panic) and is below the worker count, for every key -/
+theorem mux_same_key_same_worker (loc : Loc) (hl : LocOk loc) (n : Nat) (hn : 0 < n) (hb : n < 2^63)
+    (a b : Op) (hk : a.key = b.key) :
+    workerOf loc n a.key = workerOf loc n b.key ∧ ∃ w, workerOf loc n a.key = some w ∧ w < n := by
+  refine ⟨by rw [hk], ?_⟩
+  have hi := toInt_ofNat_small n hb
+  have := hl (BitVec.ofNat 64 n) (BitVec.ofInt 64 a.key) (by rw [hi]; omega)
+  rw [hi] at this
+  unfold workerOf
+  simp only
+  refine ⟨(loc (BitVec.ofNat 64 n) (BitVec.ofInt 64 a.key)).toInt.toNat, ?_, ?_⟩
+  · rw [if_pos this]
+  · omega
+
+example : workerOf locRemFirst 3 (-9223372036854775808) = some 2 := by decide
+/-- today's kernel: the minimum integer has no worker on 3 workers (the indexing expression panics) -/
+theorem witness_workerOf_minInt : workerOf locAbsFirst 3 (-9223372036854775808) = none := by decide
+
+/-! ### coherence -/
+
+/-- `mux_coherent`: for every configuration, every kernel, both facades, every capacity and worker count,
+every operation sequence and every fault pattern: after each completed operation, whatever any worker's
+cache holds for a key is exactly what the store holds for it. -/
+theorem mux_coherent (cfg : Cfg) (loc : Loc) (lru : Bool) (cap workers : Nat) (ops : List (Op × List Bool)) :
+    Coherent (final (step cfg loc) (State.init lru cap workers) ops) :=
+  coherent_of_inv (inv_final cfg loc ops _ (inv_init loc lru cap workers))
+
+/-- the same, after every prefix (`final` of every prefix is coherent) -/
+theorem mux_coherent_prefix (cfg : Cfg) (loc : Loc) (lru : Bool) (cap workers : Nat)
+    (pre post : List (Op × List Bool)) :
+    Coherent (final (step cfg loc) (State.init lru cap workers) pre) ∧
+    Coherent (final (step cfg loc) (State.init lru cap workers) (pre ++ post)) :=
+  ⟨mux_coherent cfg loc lru cap workers pre, mux_coherent cfg loc lru cap workers (pre ++ post)⟩
+
+/-- what `Get`/`Peek` of any worker returns is the store's value -/
+theorem mux_cached_value_is_stored (cfg : Cfg) (loc : Loc) (lru : Bool) (cap workers : Nat)
+    (ops : List (Op × List Bool)) (c : Cache) (k : Key) (v : Val)
+    (hc : c ∈ (final (step cfg loc) (State.init lru cap workers) ops).caches) (hp : cPeek c k = some v) :
+    sGet (final (step cfg loc) (State.init lru cap workers) ops).store k = some v :=
+  mux_coherent cfg loc lru cap workers ops c hc k v (sGet_mem hp)
+
+-- non-vacuity: a run with a failing update in the middle leaves cache and store equal
+set_option maxRecDepth 8192 in
+example : (final (step ⟨.storeFirst⟩ locRemFirst) (State.init true 2 2)
+    [(.add 1 5, []), (.upd 1 2, [true]), (.upd 1 2, []), (.utl 3 4, [false, true])]) =
+    ⟨[(3, 4), (1, 7)], [⟨true, 2, []⟩, ⟨true, 2, [(1, 7)]⟩]⟩ := by decide
+
+/-! ### the two handler-specific clauses -/
+
+theorem step_eq (cfg : Cfg) (loc : Loc) (s : State) (inp : Op × List Bool) {w : Nat} {ca : Cache}
+    (hw : workerOf loc s.caches.length inp.1.key = some w) (hca : s.caches[w]? = some ca) :
+    step cfg loc s inp =
+      ({ store := (handle cfg ⟨s.store, ca, inp.2, []⟩ inp.1).1.store,
+         caches := s.caches.set w (handle cfg ⟨s.store, ca, inp.2, []⟩ inp.1).1.cache },
+       ⟨(handle cfg ⟨s.store, ca, inp.2, []⟩ inp.1).2, (handle cfg ⟨s.store, ca, inp.2, []⟩ inp.1).1.trace⟩) := by
+  unfold step; simp only [hw, hca]
+
+theorem step_panic_of_none (cfg : Cfg) (loc : Loc) (s : State) (inp : Op × List Bool)
+    (h : workerOf loc s.caches.length inp.1.key = none ∨
+         ∃ w, workerOf loc s.caches.length inp.1.key = some w ∧ s.caches[w]? = none) :
+    step cfg loc s inp = (s, ⟨.panic, []⟩) := by
+  unfold step
+  rcases h with h | ⟨w, hw, hc⟩
+  · simp only [h]
+  · simp only [hw, hc]
+
+theorem hDelete_nil (cfg : Cfg) (c : Ctx) (k : Key) (h : (hDelete cfg c k).2 = .nil) :
+    cPeek (hDelete cfg c k).1.cache k = none := by
+  unfold hDelete at h ⊢
+  cases hd : cfg.delOrder <;> simp only [hd] at h ⊢
+  · -- storeFirst
+    generalize hcall : callDel c k = r at h ⊢
+    obtain ⟨r, c1⟩ := r
+    cases r with
+    | error e => simp at h
+    | ok u => simp only; exact cPeek_cDelete _ _
+  · -- cacheFirst
+    generalize hcall : callDel { c with cache := cDelete c.cache k } k = r at h ⊢
+    obtain ⟨r, c1⟩ := r
+    cases r with
+    | error e => simp at h
+    | ok u =>
+      simp only
+      rw [(callDel_spec hcall).1]; exact cPeek_cDelete _ _
+  · -- unknown (treated as storeFirst by the model)
+    generalize hcall : callDel c k = r at h ⊢
+    obtain ⟨r, c1⟩ := r
+    cases r with
+    | error e => simp at h
+    | ok u => simp only; exact cPeek_cDelete _ _
+
+/-- `mux_delete_uncaches`: in every state reachable by operations, a delete that reports success leaves
+no cached entry for the key in any worker's cache -/
+theorem mux_delete_uncaches (cfg : Cfg) (loc : Loc) (lru : Bool) (cap workers : Nat)
+    (ops : List (Op × List Bool)) (k : Key) (f : List Bool)
+    (hres : (step cfg loc (final (step cfg loc) (State.init lru cap workers) ops) (.del k, f)).2.res = .nil) :
+    ∀ c ∈ (step cfg loc (final (step cfg loc) (State.init lru cap workers) ops) (.del k, f)).1.caches,
+      cPeek c k = none := by
+  have hinv := inv_final cfg loc ops _ (inv_init loc lru cap workers)
+  generalize final (step cfg loc) (State.init lru cap workers) ops = s at hinv hres ⊢
+  intro c hc
+  rcases List.mem_iff_getElem?.1 hc with ⟨w', hw'⟩
+  cases hw : workerOf loc s.caches.length k with
+  | none =>
+    rw [step_panic_of_none cfg loc s (.del k, f) (Or.inl hw)] at hres
+    simp at hres
+  | some w =>
+    cases hca : s.caches[w]? with
+    | none =>
+      rw [step_panic_of_none cfg loc s (.del k, f) (Or.inr ⟨w, hw, hca⟩)] at hres
+      simp at hres
+    | some ca =>
+      have he := step_eq cfg loc s (.del k, f) (w := w) (ca := ca) hw hca
+      rw [he] at hres hw'
+      simp only [handle] at hres hw'
+      by_cases hww : w' = w
+      · subst hww
+        have hlt : w' < s.caches.length := (List.getElem?_eq_some_iff.1 hca).1
+        rw [List.getElem?_set_self hlt] at hw'
+        cases hw'
+        exact hDelete_nil cfg _ k hres
+      · have hne : w ≠ w' := fun e => hww e.symm
+        rw [List.getElem?_set_ne hne] at hw'
+        cases hp : cPeek c k with
+        | none => rfl
+        | some v =>
+          have := (hinv w' c hw' k v (sGet_mem hp)).2
+          rw [hw] at this
+          exact absurd (Option.some.inj this).symm hww
+
+/-- `mux_add_dup_no_store_call`: an add for a key its worker has cached reports the duplicate-key error,
+invokes no callback, consumes no fault bit and leaves store and caches exactly as they were -/
+theorem mux_add_dup_no_store_call (cfg : Cfg) (loc : Loc) (s : State) (k : Key) (v v0 : Val) (f : List Bool)
+    (w : Nat) (ca : Cache) (hw : workerOf loc s.caches.length k = some w) (hca : s.caches[w]? = some ca)
+    (hcached : cPeek ca k = some v0) :
+    step cfg loc s (.add k v, f) = (s, ⟨.err .dup, []⟩) := by
+  rw [step_eq cfg loc s (.add k v, f) (w := w) (ca := ca) hw hca]
+  simp only [handle, hAdd, hcached]
+  have : s.caches.set w ca = s.caches := by
+    apply List.ext_getElem?
+    intro i
+    by_cases hi : i = w
+    · subst hi
+      rw [List.getElem?_set_self (List.getElem?_eq_some_iff.1 hca).1, hca]
+    · rw [List.getElem?_set_ne (fun e => hi e.symm)]
+  rw [this]
+
+-- non-vacuity: key 1 cached by worker 1 of 2, the add is rejected without a callback
+set_option maxRecDepth 8192 in
+example : step ⟨.storeFirst⟩ locRemFirst ⟨[(1, 5)], [⟨false, 0, []⟩, ⟨false, 0, [(1, 5)]⟩]⟩ (.add 1 9, [true]) =
+    (⟨[(1, 5)], [⟨false, 0, []⟩, ⟨false, 0, [(1, 5)]⟩]⟩, ⟨.err .dup, []⟩) := by decide
+
+/-! ### one at a time, in acceptance order (per-worker FIFO + single consumer) -/
+
+def keyIs (k : Key) (inp : Op × List Bool) : Bool := decide (inp.1.key = k)
+
+/-- the invariant of the queue machine -/
+def QInv (loc : Loc) (q : QState) : Prop :=
+  q.pending.length = q.st.caches.length ∧
+  (∀ w l, q.pending[w]? = some l → ∀ inp ∈ l, workerOf loc q.st.caches.length inp.1.key = some w) ∧
+  (∀ k w, workerOf loc q.st.caches.length k = some w →
+    q.applied.filter (keyIs k) ++ ((q.pending[w]?).getD []).filter (keyIs k) = q.accepted.filter (keyIs k))
+
+theorem step_caches_length (cfg : Cfg) (loc : Loc) (s : State) (inp : Op × List Bool) :
+    (step cfg loc s inp).1.caches.length = s.caches.length := by
+  unfold step
+  split
+  · rfl
+  · split
+    · rfl
+    · simp
+
+
+theorem filter_single_ne {k : Key} {inp : Op × List Bool} (h : inp.1.key ≠ k) : [inp].filter (keyIs k) = [] := by
+  simp [keyIs, h]
+
+theorem qinv_init (loc : Loc) (lru : Bool) (cap workers : Nat) : QInv loc (qInit lru cap workers) := by
+  refine ⟨by simp [qInit, State.init], ?_, ?_⟩
+  · intro w l hl inp hin
+    simp only [qInit, List.getElem?_replicate] at hl
+    split at hl
+    · cases hl; simp at hin
+    · cases hl
+  · intro k w _
+    simp only [qInit, List.getElem?_replicate]
+    split <;> simp
+
+theorem qinv_step (cfg : Cfg) (loc : Loc) (q q' : QState) (a : QAct) (h : QInv loc q)
+    (hs : qStep cfg loc q a = some q') : QInv loc q' := by
+  obtain ⟨hlen, hmem, hfil⟩ := h
+  cases a with
+  | enqueue inp =>
+    simp only [qStep] at hs
+    cases hw0 : workerOf loc q.st.caches.length inp.1.key with
+    | none => simp [hw0] at hs
+    | some w0 =>
+      cases hl : q.pending[w0]? with
+      | none => simp [hw0, hl] at hs
+      | some l =>
+        simp only [hw0, hl, Option.some.injEq] at hs
+        subst hs
+        have hlt : w0 < q.pending.length := (List.getElem?_eq_some_iff.1 hl).1
+        refine ⟨by simpa using hlen, ?_, ?_⟩
+        · intro w l' hl' x hx
+          simp only at hl' ⊢
+          by_cases hww : w = w0
+          · subst hww
+            rw [List.getElem?_set_self hlt] at hl'
+            cases hl'
+            rcases List.mem_append.1 hx with hx | hx
+            · exact hmem w l hl x hx
+            · simp at hx; subst hx; exact hw0
+          · rw [List.getElem?_set_ne (fun e => hww e.symm)] at hl'
+            exact hmem w l' hl' x hx
+        · intro k w hkw
+          simp only at hkw ⊢
+          have hold := hfil k w hkw
+          by_cases hww : w = w0
+          · subst hww
+            rw [List.getElem?_set_self hlt]
+            rw [hl] at hold
+            simp only [Option.getD_some, List.filter_append] at hold ⊢
+            rw [← List.append_assoc, hold]
+          · rw [List.getElem?_set_ne (fun e => hww e.symm)]
+            have hne : inp.1.key ≠ k := by
+              intro e; rw [e, hkw] at hw0; exact hww (Option.some.inj hw0)
+            rw [List.filter_append, filter_single_ne hne, List.append_nil]
+            exact hold
+  | process w0 =>
+    simp only [qStep] at hs
+    cases hl : q.pending[w0]? with
+    | none => simp [hl] at hs
+    | some l =>
+      cases l with
+      | nil => simp [hl] at hs
+      | cons inp rest =>
+        simp only [hl, Option.some.injEq] at hs
+        subst hs
+        have hlt : w0 < q.pending.length := (List.getElem?_eq_some_iff.1 hl).1
+        have hcl := step_caches_length cfg loc q.st inp
+        have hinp := hmem w0 (inp :: rest) hl inp (List.mem_cons_self ..)
+        refine ⟨by simp only [List.length_set, hcl]; exact hlen, ?_, ?_⟩
+        · intro w l' hl' x hx
+          simp only [hcl] at hl' ⊢
+          by_cases hww : w = w0
+          · subst hww
+            rw [List.getElem?_set_self hlt] at hl'
+            cases hl'
+            exact hmem w (inp :: rest) hl x (List.mem_cons_of_mem _ hx)
+          · rw [List.getElem?_set_ne (fun e => hww e.symm)] at hl'
+            exact hmem w l' hl' x hx
+        · intro k w hkw
+          simp only [hcl] at hkw ⊢
+          have hold := hfil k w hkw
+          by_cases hww : w = w0
+          · subst hww
+            rw [List.getElem?_set_self hlt]
+            rw [hl] at hold
+            simp only [Option.getD_some] at hold ⊢
+            rw [List.filter_append, List.append_assoc, ← hold]
+            congr 1
+            simp [List.filter_cons]
+            split <;> simp
+          · rw [List.getElem?_set_ne (fun e => hww e.symm)]
+            have hne : inp.1.key ≠ k := by
+              intro e; rw [e, hkw] at hinp; exact hww (Option.some.inj hinp)
+            rw [List.filter_append, filter_single_ne hne, List.append_nil]
+            exact hold
+
+/-- `mux_key_serial_order`: under every interleaving of callers enqueueing and workers processing, the
+operations applied for a key, followed by those still queued for it at its worker, are exactly the
+operations accepted for that key, in acceptance order.  (Operations are applied one at a time: `applied`
+is a sequence, each `process` step runs exactly one handler to completion.) -/
+theorem mux_key_serial_order (cfg : Cfg) (loc : Loc) (lru : Bool) (cap workers : Nat) (q : QState)
+    (hr : (qLTS cfg loc lru cap workers).Reach q) (k : Key) (w : Nat)
+    (hw : workerOf loc q.st.caches.length k = some w) :
+    q.applied.filter (keyIs k) ++ ((q.pending[w]?).getD []).filter (keyIs k) = q.accepted.filter (keyIs k) := by
+  have : QInv loc q := by
+    refine LTS.inv_of_step (qLTS cfg loc lru cap workers) (QInv loc) (qinv_init loc lru cap workers) ?_ q hr
+    intro s a s' hi hs
+    exact qinv_step cfg loc s s' a hi hs
+  exact this.2.2 k w hw
+
+/-- what was applied for a key is a prefix of what was accepted for it -/
+theorem mux_applied_prefix_of_accepted (cfg : Cfg) (loc : Loc) (lru : Bool) (cap workers : Nat) (q : QState)
+    (hr : (qLTS cfg loc lru cap workers).Reach q) (k : Key) (w : Nat)
+    (hw : workerOf loc q.st.caches.length k = some w) :
+    q.applied.filter (keyIs k) <+: q.accepted.filter (keyIs k) :=
+  ⟨_, mux_key_serial_order cfg loc lru cap workers q hr k w hw⟩
+
+/-- the store and the caches are those of the sequential run of the applied operations -/
+theorem mux_state_is_sequential_run (cfg : Cfg) (loc : Loc) (lru : Bool) (cap workers : Nat) (q : QState)
+    (hr : (qLTS cfg loc lru cap workers).Reach q) :
+    q.st = final (step cfg loc) (State.init lru cap workers) q.applied := by
+  induction hr with
+  | init => rfl
+  | step hreach hstep ih =>
+    rename_i s a s'
+    cases a with
+    | enqueue inp =>
+      simp only [qLTS, qStep] at hstep
+      split at hstep
+      · cases hstep
+      · split at hstep
+        · cases hstep
+        · cases hstep; exact ih
+    | process w =>
+      simp only [qLTS, qStep] at hstep
+      split at hstep
+      · cases hstep
+        simp only [final_append, ← ih]
+        rfl
+      · cases hstep
+
+/-- coherence under every schedule of callers and workers -/
+theorem mux_coherent_all_schedules (cfg : Cfg) (loc : Loc) (lru : Bool) (cap workers : Nat) (q : QState)
+    (hr : (qLTS cfg loc lru cap workers).Reach q) : Coherent q.st := by
+  rw [mux_state_is_sequential_run cfg loc lru cap workers q hr]
+  exact mux_coherent cfg loc lru cap workers q.applied
 
 end Nv.C15
